@@ -136,6 +136,7 @@ class CFG:
         self.exit = self._new('exit', None)
         self.raise_exit = self._new('raise', None)
         self._finally_stack = []  # list of (finalbody stmts, ctx at try)
+        self.no_raise = set()
         ctx = {'withs': (), 'trys': (), 'loops': (), 'handlers': [self.raise_exit], 'loop': None}
         ends = self._block(fn.body, [self.entry], ctx)
         for e in ends:
@@ -333,10 +334,21 @@ class CFG:
         n, phase = st
         if phase == 0:
             out = [(n, 1)]
-            if not normal_only:
+            if not normal_only and n.id not in self.no_raise:
                 out += [(h, 0) for h in n.esucc]
             return out
         return [(s, 0) for s in n.succ]
+
+    def assume_logging_does_not_raise(self):
+        """Mark statements that only log (logger.x(...), print) as non-raising for path queries."""
+        for n in self.nodes:
+            if n.kind == 'stmt' and isinstance(n.stmt, ast.Expr) and isinstance(n.stmt.value, ast.Call):
+                txt = ast.unparse(n.stmt.value.func)
+                if any(x in txt for x in ('_logger.', 'logger.', '_log.')) or txt == 'print':
+                    self.no_raise.add(n.id)
+            if n.kind == 'stmt' and isinstance(n.stmt, ast.Expr) and isinstance(n.stmt.value, ast.Constant):
+                self.no_raise.add(n.id)
+        self._dom = None
 
     def _pp_reach(self, starts, avoid=(), normal_only=False):
         """Set of (node id, phase) reachable from the start states without completing a node in avoid."""
